@@ -128,10 +128,22 @@ Aliases == <<
     [name |-> "annotatedbin", same |-> "annotated", vals |-> [base |-> 2, group |-> 8]],
     [name |-> "tcgamebin", same |-> "tcgame", vals |-> [base |-> 2, group |-> 8]] >>
 
+\* Two further names are accepted by the implementation and are not listed in
+\* the usage text (`annotatedhex' = the default annotated listing, `c' = hexc).
+\* The property obliges every LISTED name to be accepted and every UNKNOWN
+\* name to be rejected; an undocumented alias is neither, so the
+\* specification admits these two (and only these two) without requiring the
+\* documentation to list them.
+UndocumentedAliases == <<
+    [name |-> "annotatedhex", same |-> "annotated", vals |-> [base |-> 16, group |-> 2]],
+    [name |-> "c", same |-> "hexc", vals |-> <<>>] >>
+
+AllAliases == Aliases \o UndocumentedAliases
+
 IsFormat(n) == \E i \in 1..Len(Formats) : Formats[i].name = n
 FormatOf(n) == Formats[CHOOSE i \in 1..Len(Formats) : Formats[i].name = n]
-IsAlias(n) == \E i \in 1..Len(Aliases) : Aliases[i].name = n
-AliasOf(n) == Aliases[CHOOSE i \in 1..Len(Aliases) : Aliases[i].name = n]
+IsAlias(n) == \E i \in 1..Len(AllAliases) : AllAliases[i].name = n
+AliasOf(n) == AllAliases[CHOOSE i \in 1..Len(AllAliases) : AllAliases[i].name = n]
 
 HasParam(f, k) == \E i \in 1..Len(f.params) : f.params[i].k = k
 ParamOf(f, k) == f.params[CHOOSE i \in 1..Len(f.params) : f.params[i].k = k]
